@@ -189,6 +189,17 @@ func c04Run(b *core.B) {
 			b.Violate("nil-data-map/"+pan.Sig(), "panic: "+pan.Value)
 		}
 	}
+	// values that would contain themselves: an error where the knot would be tied, or output - not a
+	// printer that never comes back (the worker's stack is bounded, so that ends the process)
+	for _, t := range []string{
+		"<% let a = [1] %><% a[0] = a %><%= a %>", "<% let a = [1] %><% a[0] = a %><%= \"x\" + a %>", "<% let m = {} %><% m[\"self\"] = m %><%= inspect(m) %>", "<% let m = {} %><% m[\"self\"] = m %><%= debug(m) %>",
+		"<% let a = [1] %><% let b = [a] %><% a[0] = b %><%= a %>", "<% let m = {} %><% let a = [m] %><% m[\"k\"] = a %><%= a %><%= toJSON(m) %>", "<% let a = [1, 2] %><% a[1] = [a] %><%= len(a) %><%= a %>",
+		"<% let a = [1] %><% a[0] = [a, a] %><%= a == a %>", "<% v_ifaces[0] = v_ifaces %><%= v_ifaces %>", "<% v_msi[\"a\"] = v_msi %><%= v_msi %><%= inspect(v_msi) %>", "<% v_mii[1] = v_mii %><%= inspect(v_mii) %>",
+		// not knots: the stored value does not contain the slot it is stored in
+		"<% let a = [1, 2] %><% let b = [a] %><% let c = [b, a] %><% a[0] = 5 %><%= c %>", "<% let m = {} %><% let n = {\"m\": m} %><% m[\"k\"] = 1 %><%= toJSON(n) %>",
+	} {
+		cell("self-containing", t)
+	}
 	// pure scripts through RunScript
 	for _, sc := range []string{"let a = 1\n a = a + 1", "let a = [1,2]\n a[5] = 1", "print(nope)", "let f = fn(x) { return x }\n f()", "for (x) in 5 { }", "if (true) { return 1 }", "1 / 0", "let a = {}\n a.b = 1", ")", "", "let x = truncate(5, 5)"} {
 		idx++
